@@ -6,6 +6,7 @@ import (
 	"encoding/json"
 	"fmt"
 	"github.com/mdlayher/corerad/internal/config"
+	"github.com/mdlayher/corerad/internal/plugin"
 	"github.com/mdlayher/corerad/verifrt/ref"
 	"net/netip"
 	"strings"
@@ -20,7 +21,9 @@ import (
 // decodes to the same advertisement up to truncation to the field's unit.
 
 var c03Durations = []string{"-1ns", "-1s", "-24h", "", "0s", "1ns", "999ms", "1s", "1.5s", "65535s", "65536s", "9000s", "1h",
-	"4294967294s", "4294967295s", "4294967295.5s", "4294967296s", "1200000h", "2562047h47m16.854775807s", "infinite", "auto"}
+	"4294967294s", "4294967295s", "4294967295.5s", "4294967296s", "1200000h", "2562047h47m16.854775807s", "infinite", "auto",
+	// other spellings a lenient parser might take: bare integers (seconds?), signs, exponents
+	"0", "30", "-30", "4294967296", "+5s", "1e3s", " 5s"}
 
 var c03PREF64 = []string{"", "64:ff9b::/96", "2001:db8::/64", "2001:db8::/56", "2001:db8::/48", "2001:db8::/40", "2001:db8::/32",
 	"2001:db8::/33", "2001:db8::/0", "::/0", "2001:db8::/128", "2001:db8::1/96", "64:ff9b::1/96", "10.0.0.0/8", "10.0.0.0/32", "192.0.2.0/24", "::ffff:10.0.0.0/96", "fe80::%eth0/64", "garbage"}
@@ -36,6 +39,9 @@ type c03Case struct {
 	Devs  []string      `json:"deviations"`
 	Doc   ref.Doc       `json:"document"`
 	Clock time.Duration `json:"clock_after_epoch"`
+	// Step: every reading of the clock is this much later than the previous one
+	// (time passes while an RA is being built).
+	Step time.Duration `json:"clock_step,omitempty"`
 }
 
 func c03Base(dep bool, wild bool) ref.Doc {
@@ -138,6 +144,22 @@ func c03Check(c c03Case) [][2]string {
 			if err := ref.Prepare(&ifi, &st, c02Epoch); err != nil {
 				add("C03:prepare", err.Error())
 				continue
+			}
+			if c.Step > 0 {
+				nread := 0
+				tick := func() time.Time {
+					t := c02Epoch.Add(c.Clock + time.Duration(nread)*c.Step)
+					nread++
+					return t
+				}
+				for _, p := range ifi.Plugins {
+					switch p := p.(type) {
+					case *plugin.Prefix:
+						p.TimeNow = tick
+					case *plugin.Route:
+						p.TimeNow = tick
+					}
+				}
 			}
 			var ra *ndp.RouterAdvertisement
 			func() {
@@ -246,7 +268,7 @@ func c03Check(c c03Case) [][2]string {
 func TestVerifC03(t *testing.T) {
 	r := ev.Begin("C03", "codec")
 	defer r.End(t)
-	r.Rule = "documents = base documents {static, wildcard} x {plain, deprecated at 4 clock readings} with every duration-typed key set to each of 21 boundary strings (negative, empty, sub-second, 16/32-bit limits +-1, int64 limit, infinite, auto) one at a time (quick) and all pairs of duration keys (thorough), and the pref64 prefix set to each of 19 CIDR strings; every ACCEPTED document is built, encoded with ndp.MarshalMessage, decoded with ndp.ParseMessage and compared field by field up to truncation; non-trivial = accepted by the parser and RA generation succeeded; distinct = distinct TOML x clock"
+	r.Rule = "documents = base documents {static, wildcard} x {plain, deprecated at 4 clock readings, deprecated with a clock that advances 0.3 s / 2 s per reading across each deadline} with every duration-typed key set to each of 21 boundary strings (negative, empty, sub-second, 16/32-bit limits +-1, int64 limit, infinite, auto) one at a time (quick) and all pairs of duration keys (thorough), and the pref64 prefix set to each of 19 CIDR strings; every ACCEPTED document is built, encoded with ndp.MarshalMessage, decoded with ndp.ParseMessage and compared field by field up to truncation; non-trivial = accepted by the parser and RA generation succeeded; distinct = distinct TOML x clock"
 	r.Assumptions = []string{"github.com/mdlayher/ndp's codec is the wire format (trusted)", "system state fixed to one for which RA generation succeeds (quantifier)"}
 
 	if r.Replay != nil {
@@ -290,6 +312,23 @@ func TestVerifC03(t *testing.T) {
 			cl := clocks
 			if dep {
 				cl = []time.Duration{0, 2 * time.Hour, 4 * time.Hour, 25 * time.Hour}
+			}
+			if dep {
+				// The clock advances while the RA is being built, across each deadline
+				// (preferred 4h, valid and route 24h after the epoch).
+				for _, at := range []time.Duration{4*time.Hour - time.Second, 24*time.Hour - time.Second, 24*time.Hour - 100*time.Millisecond} {
+					for _, step := range []time.Duration{300 * time.Millisecond, 2 * time.Second} {
+						d := c03Base(dep, wild)
+						c := c03Case{Devs: []string{"stepping-clock"}, Doc: d, Clock: at, Step: step}
+						key := fmt.Sprintf("%s@%s+%s", d.TOML(), at, step)
+						if r.MineKey(key) {
+							r.Case(key, true)
+							for _, v := range c03Check(c) {
+								r.Violation(v[0], v[1], c)
+							}
+						}
+					}
+				}
 			}
 			for _, clock := range cl {
 				one(nil, c03Base(dep, wild), clock)
